@@ -17,7 +17,7 @@ pub fn info() -> PropInfo {
     PropInfo {
         id: "C18",
         level: "exploration",
-        rule: "fuzz cases = 1-3 sources (+ include targets + pre-existing generated files) x mode {build, needed, verify, clean} x threads 0..16 x recursive on/off, executed in-process with the panic hook and the deadlock predicate armed. Source generators: (a) grammar-aware hostile lines outside the judged domain (Unicode blanks U+00A0/U+2003/VT/FF as indentation and around names, multi-byte prefixes followed by space-only continuation lines of every length, empty arguments, tag names that prefix each other, 20 kB lines, deep continuation blocks, directive look-alikes); (b) byte-level mutation of well-formed sources (invalid UTF-8, NUL, lone CR, truncation inside multi-byte characters, random splices); the same mutations applied to include targets and to leftovers at output/temp paths. Commands are neutralised by configuring /bin/echo as the shell (the run path is still exercised), absolute temp targets are rewritten to stay inside the scratch tree. CLI part: option values (-j 0, -j 1, -j 16, huge -j, empty / unresolvable shell, empty input string, missing base, no inputs). Non-trivial = the case contains at least one directive-like line or a non-UTF-8 byte; distinct = distinct case hashes.",
+        rule: "fuzz cases = 1-3 sources (+ include targets + pre-existing generated files, and in 12 % of the cases a directory symbolic link to a sibling, to the parent or to the directory itself) x mode {build, needed, verify, clean} x threads 0..16 x recursive on/off, executed in-process with the panic hook and the deadlock predicate armed. Source generators: (a) grammar-aware hostile lines outside the judged domain (Unicode blanks U+00A0/U+2003/VT/FF as indentation and around names, multi-byte prefixes followed by space-only continuation lines of every length, empty arguments, tag names that prefix each other, 20 kB lines, deep continuation blocks, directive look-alikes); (b) byte-level mutation of well-formed sources (invalid UTF-8, NUL, lone CR, truncation inside multi-byte characters, random splices); the same mutations applied to include targets and to leftovers at output/temp paths. Commands are neutralised by configuring /bin/echo as the shell (the run path is still exercised), absolute temp targets are rewritten to stay inside the scratch tree. CLI part: option values (-j 0, -j 1, -j 16, huge -j, empty / unresolvable shell, empty input string, missing base, no inputs). Non-trivial = the case contains at least one directive-like line or a non-UTF-8 byte; distinct = distinct case hashes.",
         assumptions: &["hangs are decided by the logical deadlock predicate of the hooks; a wall-clock watchdog expiry is reported as inconclusive", "commands are not fuzzed (shell = /bin/echo): a non-terminating command is out of domain"],
         floor: (3000, 100_000),
         shards: (16, 16),
@@ -43,7 +43,7 @@ fn hostile_source(r: &mut StdRng) -> Vec<u8> {
                 let arg = match name {
                     "include" | "after" => ["inc.txt", "", "missing", ".", "..", "sub", "a.txt", "self.txt", "bad.bin", "\u{e9}.txt", "t.tmp"][r.gen_range(0..11)].to_string(),
                     "temp" => ["t.tmp", "", ".", "sub/t.tmp", "x.txtpp", "\u{e9}.tmp", "a.txt", "nodir/x"][r.gen_range(0..8)].to_string(),
-                    "tag" => ["T", "TT", "", "T T", "\u{e9}", "TAG"][r.gen_range(0..6)].to_string(),
+                    "tag" => ["T", "TT", "", "T T", "\u{e9}", "TAG", "ab", "bc", "\u{e9}a"][r.gen_range(0..9)].to_string(),
                     _ => HOSTILE[r.gen_range(0..HOSTILE.len())].to_string(),
                 };
                 ls.push(format!("{ws}{pre}TXTPP#{name}{sep}{arg}"));
@@ -62,7 +62,7 @@ fn hostile_source(r: &mut StdRng) -> Vec<u8> {
                 }
             }
             4 => ls.push(format!("{ws}{}", (0..r.gen_range(0..5)).map(|_| HOSTILE[r.gen_range(0..HOSTILE.len())]).collect::<String>())),
-            5 => ls.push("T TT TAG \u{e9} T".to_string()),
+            5 => ls.push(["T TT TAG \u{e9} T", "abc", "xabcbc", "T\u{e9}a"][r.gen_range(0..4)].to_string()),
             6 => ls.push(String::new()),
             7 => ls.push("x".repeat(if r.gen_bool(0.2) { 20_000 } else { r.gen_range(0..300) })),
             8 => ls.push(format!("{}TXTPP#", "\u{e9}".repeat(r.gen_range(0..4)))),
@@ -142,6 +142,8 @@ fn sanitize(b: &mut Vec<u8>) {
 
 #[derive(Debug, Clone)]
 struct Case {
+    /// (link path, target text): directory links, possibly forming a cycle
+    symlinks: Vec<(String, String)>,
     files: Files,
     mode: Mode,
     threads: usize,
@@ -152,10 +154,11 @@ struct Case {
 
 impl Case {
     fn json(&self) -> Value {
-        json!({"files": files_json(&self.files), "mode": crate::run::mode_name(&self.mode), "threads": self.threads, "recursive": self.recursive, "trailing": self.trailing, "inputs": self.inputs})
+        json!({"symlinks": self.symlinks.iter().map(|(a, b)| vec![a.clone(), b.clone()]).collect::<Vec<_>>(), "files": files_json(&self.files), "mode": crate::run::mode_name(&self.mode), "threads": self.threads, "recursive": self.recursive, "trailing": self.trailing, "inputs": self.inputs})
     }
     fn from(v: &Value) -> Self {
         Self {
+            symlinks: v["symlinks"].as_array().map(|a| a.iter().filter_map(|x| Some((x.get(0)?.as_str()?.to_string(), x.get(1)?.as_str()?.to_string()))).collect()).unwrap_or_default(),
             files: files_from_json(&v["files"]),
             mode: crate::run::mode_from(v["mode"].as_str().unwrap_or("build")),
             threads: v["threads"].as_u64().unwrap_or(1) as usize,
@@ -209,13 +212,26 @@ fn gen_case(r: &mut StdRng) -> Case {
         2 => vec!["".into()],
         _ => vec![".".into()],
     };
-    Case { files, mode, threads: if r.gen_bool(0.1) { 0 } else { r.gen_range(0..=16) }, recursive: r.gen_bool(0.6), trailing: r.gen_bool(0.6), inputs }
+    // directory links: to a sibling, to the parent, to the directory itself
+    let mut symlinks = vec![];
+    if r.gen_bool(0.12) {
+        symlinks.push(match r.gen_range(0..4) {
+            0 => ("loop".to_string(), ".".to_string()),
+            1 => ("sub/up".to_string(), "..".to_string()),
+            2 => ("sub/self".to_string(), ".".to_string()),
+            _ => ("other".to_string(), "sub".to_string()),
+        });
+    }
+    Case { symlinks, files, mode, threads: if r.gen_bool(0.1) { 0 } else { r.gen_range(0..=16) }, recursive: r.gen_bool(0.6), trailing: r.gen_bool(0.6), inputs }
 }
 
 fn check(ctx: &mut Ctx, c: &Case) {
     ctx.set_current(&c.json());
     let root = ctx.scratch.fresh();
     materialize(&root, &c.files, &[]);
+    for (link, target) in &c.symlinks {
+        let _ = std::os::unix::fs::symlink(target, root.join(link));
+    }
     let cfg = RunCfg { base: root.clone(), inputs: c.inputs.clone(), mode: c.mode.clone(), threads: c.threads, recursive: c.recursive, trailing: c.trailing, shell: "/bin/echo".into() };
     let o = run_inproc(&cfg, Spec::Free { delay: None }, Some(&root), false);
     ctx.evals += 1;
@@ -226,6 +242,7 @@ fn check(ctx: &mut Ctx, c: &Case) {
         Verdict::Err(_) => "reported-error",
         Verdict::Deadlock => "deadlock",
         Verdict::HangInDrop => "hang-in-drop",
+        Verdict::Livelock => "livelock",
         Verdict::MainPanic(_) => "panic",
         Verdict::Watchdog => "watchdog",
     });
@@ -237,6 +254,7 @@ fn check(ctx: &mut Ctx, c: &Case) {
     match &o.verdict {
         Verdict::Deadlock => ctx.violation(format!("C18:hang:{}", crate::run::mode_name(&c.mode)), "the coordinator can never leave its loop (logical deadlock: nothing in flight, all results received, done != total)", c.json()),
         Verdict::HangInDrop => ctx.violation(format!("C18:hang-after-error:{}", crate::run::mode_name(&c.mode)), "after a reported error the remaining workers block forever in the result-channel send while Drop joins the pool: the run never returns", c.json()),
+        Verdict::Livelock => ctx.violation(format!("C18:hang:endless-directory-rescan:{}", if c.symlinks.is_empty() { "no-symlink" } else { "symlink-cycle" }), format!("one directory was queued for scanning more than 64 times in a single run (inputs {:?}, recursive {}, symbolic links {:?}): the run never finishes", c.inputs, c.recursive, c.symlinks), c.json()),
         Verdict::MainPanic(m) => ctx.violation(format!("C18:panic:main:{shape}"), format!("the thread calling Txtpp::run panicked: {m}; {:?}", o.panics), c.json()),
         Verdict::Watchdog => ctx.inconclusive("watchdog expired (not decided)"),
         _ => {}
